@@ -32,15 +32,15 @@ theorem merged_no_cut (cb : Nat → Nat) {ins outs : List Nat} (h : ∀ x ∈ in
   rw [hz, hz'] at p
   simpa using p
 
-/-- `aggregateFull` of transactions that share nothing and have nothing to cut -/
+/-- `aggregateFull` of transactions that share nothing and have nothing to cut: always succeeds,
+plain sorted union, offsets summed -/
 theorem aggregateFull_disjoint {K : Keys} {txs : List Tx}
     (iI : InjOn K.ik (allIns K txs)) (iO : InjOn K.ok (allOuts txs))
     (ndI : (allIns K txs).Nodup) (ndO : (allOuts txs).Nodup)
     (hdis : ∀ x ∈ allIns K txs, x ∉ (allOuts txs).map outCommit) :
     aggregateFull K txs =
-      match sumKernelOffsets (allOffs txs) [] with
-      | .error e => .error e
-      | .ok off => .ok ⟨off, false, sortBy K.ik (allIns K txs), sortBy K.ok (allOuts txs), sortBy K.kk (allKers txs)⟩ := by
+      .ok ⟨(toSecrets (allOffs txs)).sum % N, false, sortBy K.ik (allIns K txs), sortBy K.ok (allOuts txs),
+        sortBy K.kk (allKers txs)⟩ := by
   obtain ⟨pI, pO⟩ := merged_no_cut outCommit hdis
   have eI := sortBy_congr (key := K.ik) (iI.of_perm pI.symm) pI
   have eO := sortBy_congr (key := K.ok) (iO.of_perm pO.symm) pO
@@ -48,9 +48,8 @@ theorem aggregateFull_disjoint {K : Keys} {txs : List Tx}
     (adjDup_sortBy (iI.of_perm pI.symm)).2 (pI.nodup_iff.2 ndI)
   have d2 : adjDup (sortBy K.ok (merged id outCommit (allIns K txs) (allOuts txs)).outs) = false :=
     (adjDup_sortBy (iO.of_perm pO.symm)).2 (pO.nodup_iff.2 ndO)
-  rw [aggregateFull_eq, d1, d2, sortBy_idem, sortBy_idem, eI, eO]
+  rw [aggregateFull_eq, d1, d2, sortBy_idem, sortBy_idem, eI, eO, sumKernelOffsets_nil]
   simp only [Bool.false_eq_true, if_false]
-  cases sumKernelOffsets (allOffs txs) [] <;> rfl
 
 /-- the `if !other.contains(x) && !acc.contains(x) { acc.push(x) }` loop on a duplicate-free
 vector is a filter -/
@@ -95,44 +94,33 @@ theorem filter_remove_left {p q other l : List Nat} (nd : (p ++ q).Nodup) (hl : 
     simp [this]
   rw [e1, e2, nil_append]
 
-/-- the offset subtraction of `deaggregate` in closed form -/
+/-- the offset subtraction of `deaggregate` in closed form: always the remainder's offset sum,
+zero included (`mk` offset = subset offset ≠ 0 gives the zero offset, not an error) -/
 theorem deagg_offset (m a SA SB : Nat) (hm : m = (SA + SB) % N) (ha : a = SA % N) :
     (if (toSecrets [m]).isEmpty && (toSecrets [a]).isEmpty then (.ok 0 : Except Err Nat)
-      else blindSum (toSecrets [m]) (toSecrets [a])) =
-    if m = 0 ∧ a = 0 then .ok 0
-    else if SB % N = 0 then .error .secp else .ok (SB % N) := by
+      else blindSumOrZero (toSecrets [m]) (toSecrets [a])) = .ok (SB % N) := by
   have hN : 0 < N := by decide
   have hmN : m < N := hm ▸ Nat.mod_lt _ hN
   have haN : a < N := ha ▸ Nat.mod_lt _ hN
-  rw [toSecrets_singleton_of_lt hmN, toSecrets_singleton_of_lt haN]
-  have key : (m + (N - a % N)) % N = SB % N := by
-    simp only [N] at *
-    omega
+  rw [toSecrets_singleton_of_lt hmN, toSecrets_singleton_of_lt haN, blindSumOrZero_eq]
   by_cases m0 : m = 0
   · by_cases a0 : a = 0
-    · simp [m0, a0]
-    · -- m = 0, a ≠ 0: then SB ≡ -a, non-zero
-      have : SB % N = N - a := by
+    · have : SB % N = 0 := by
         simp only [N] at *
         omega
-      simp only [m0, a0, if_true, if_false, isEmpty_nil, Bool.true_and, and_false]
-      simp only [blindSum, sum_nil, map_cons, map_nil, sum_cons, Nat.add_zero, Nat.zero_add, isEmpty_cons,
-        Bool.false_eq_true, if_false]
-      rw [this]
-      have h1 : (N - a % N) % N = N - a := by
+      simp [m0, a0, this]
+    · have : (N - a % N) % N = SB % N := by
         simp only [N] at *
         omega
-      have h2 : N - a ≠ 0 := by omega
-      simp [h1, h2]
+      simp [m0, a0, scalarSum, this]
   · by_cases a0 : a = 0
-    · have : SB % N = m := by
+    · have : m % N = SB % N := by
         simp only [N] at *
         omega
-      simp only [m0, a0, if_false, if_true, isEmpty_cons, Bool.false_and, false_and, Bool.false_eq_true]
-      simp only [blindSum, sum_nil, map_nil, sum_cons, Nat.add_zero]
-      rw [this, Nat.mod_eq_of_lt hmN]
-    · simp only [m0, a0, if_false, isEmpty_cons, Bool.false_and, false_and, Bool.false_eq_true, and_false]
-      simp only [blindSum, sum_nil, map_cons, map_nil, sum_cons, Nat.add_zero]
-      rw [key]
+      simp [m0, a0, scalarSum, this]
+    · have : (m + (N - a % N)) % N = SB % N := by
+        simp only [N] at *
+        omega
+      simp [m0, a0, scalarSum, this]
 
 end GV.Tx
